@@ -24,7 +24,7 @@ CFG_Q3 = dict(ops2=("mul",), iops=(), set_idx=(), clears=("backward",), max_live
 # statements that raise (a failed new op, a failed in-place update) between the clear event and the final backward
 CFG_Q4 = dict(ops2=("mul",), iops=(), set_idx=(), clears=("backward",), max_live=4, no_y=True, fails=True)
 CFGS = {"q1": CFG_Q1, "q2": CFG_Q, "q3": CFG_Q3, "q4": CFG_Q4, "t": CFG_T}
-BOUNDS = {"quick": [("q1", 5), ("q2", 4), ("q3", 5), ("q4", 5)], "thorough": [("q1", 6), ("q3", 6), ("q4", 6), ("t", 5)]}
+BOUNDS = {"quick": [("q1", 5), ("q2", 4), ("q3", 5), ("q4", 5)], "thorough": [("q1", 6), ("q3", 6), ("q4", 5), ("t", 5)]}
 
 
 def enabled(m, cfg, out):
